@@ -232,11 +232,39 @@ def check_S3(prog, rep, eff):
                 arr = [p for p in f.params if is_arraylike(prog, f, p)]
                 makes_closure = any(isinstance(n, (ast.FunctionDef, ast.Lambda)) for n in f.own_nodes())
                 rng = any(isinstance(c.func, ast.Attribute) and 'random' in norm(c.func) for c in calls(f.node))
-                bad = bool(arr) or makes_closure or rng or f.parent is not None
+                ret_arr = returns_array(prog, f)
+                bad = bool(arr) or makes_closure or rng or f.parent is not None or ret_arr is not None
                 rep.add('S3-memo', f, f.qualname, '@%s' % norm(d), f.node.lineno, not bad,
-                        'memoised function takes array-like parameters %s / builds closures / draws random numbers: '
-                        'a cached result or closure can be returned for a different call' % arr)
+                        'memoised function takes array-like parameters %s / builds closures / draws random numbers / returns '
+                        'a mutable array (%s): a cached result or closure can be returned for a different call, and a cached '
+                        'array is one object shared by every later call - any in-place edit by a caller or by the user '
+                        'changes what the next call returns' % (arr, ret_arr))
     # module-level memo dicts are covered by S1 (a cache must be written at call time)
+
+
+ARRAY_MAKERS = {'zeros', 'ones', 'empty', 'full', 'array', 'asarray', 'linspace', 'meshgrid', 'arange', 'where', 'pad',
+                'zeros_like', 'ones_like', 'empty_like', 'full_like', 'concatenate', 'stack', 'ogrid', 'mgrid', 'outer',
+                'eye', 'identity', 'fromfunction', 'tile', 'repeat', 'astype', 'reshape', 'copy'}
+
+
+def returns_array(prog, f, depth=3):
+    """text of the array-making call a return value of f derives from, or None"""
+    las = f.local_assigns()
+    seen = set()
+    work = [r.value for r in f.own_nodes() if isinstance(r, ast.Return) and r.value is not None]
+    steps = 0
+    while work and steps < 200:
+        steps += 1
+        e = work.pop()
+        for x in ast.walk(e):
+            if isinstance(x, ast.Call):
+                nm = x.func.attr if isinstance(x.func, ast.Attribute) else getattr(x.func, 'id', '')
+                if nm in ARRAY_MAKERS:
+                    return norm(x)[:50]
+            if isinstance(x, ast.Name) and x.id not in seen and x.id not in f.params:
+                seen.add(x.id)
+                work.extend(v for v in las.get(x.id, []) if isinstance(v, ast.AST))
+    return None
 
 
 def closure_captures(prog, f):
